@@ -397,6 +397,28 @@ func scenarioAffinity() int {
 		run.Observe("calls_answered_after_ringing_for_more_than_a_minute", longOK)
 		run.Observe("seconds_the_long_calls_were_pending", int(time.Since(started).Seconds()))
 	}
+	if w.Net.Sniffing() {
+		// the egress monitor: in this scenario every request reaches the proxy over a connection
+		// the client opened, so the proxy has no reason ever to open one towards a client
+		// address - wherever that attempt goes, also to a port where nobody listens
+		pk, _ := w.Net.EgressSince(0)
+		var dials []string
+		uaPrefix := fmt.Sprintf("127.%d.100.", w.Plan.B)
+		for _, e := range pk {
+			if e.Syn && w.FromProxy(e) && strings.HasPrefix(e.DstIP, uaPrefix) {
+				dials = append(dials, e.Src+" -> "+e.Dst)
+			}
+		}
+		run.Observe("egress_monitor_running", true)
+		run.Observe("packets_seen_by_the_egress_monitor", w.Net.SnifferPackets())
+		run.Observe("connection_attempts_of_the_proxy_towards_client_addresses", len(dials))
+		if len(dials) > 0 && run.Violations() == 0 {
+			if len(dials) > 8 {
+				dials = dials[:8]
+			}
+			run.Violation("the proxy opened a connection towards a client address instead of using the connection the request came on (seen by the egress monitor on the loopback device)", map[string]any{"connection_attempts": dials})
+		}
+	}
 	run.Observe("responses_on_the_right_connection", respOK)
 	run.Observe("schedules", nsched)
 	if respOK < nsched {
